@@ -106,3 +106,80 @@ class ScriptedErrors:
         v = self.S.fresh_real('err')
         self.S.assume(v >= 0)
         return v
+
+
+# ---------------------------------------------------------------------------------------------------
+def subsets_upto(n, m):
+    """All non-empty index subsets of range(n) with at most m elements, plus the full set (all benefits equal)."""
+    out = []
+    for r in range(1, m + 1):
+        out.extend(itertools.combinations(range(n), r))
+    if n > m:
+        out.append(tuple(range(n)))
+    return out
+
+
+def all_objects(sa, d):
+    return [(k, i, o) for k in range(d) for i, o in enumerate(sa.refinement.get_refinement_container_for_dim(k).get_objects())]
+
+
+def scripted_refine(S, sa, d, step, max_sel):
+    """One real refine() with a solver-chosen set of selected intervals (benefit 1, all others 0)."""
+    objs = all_objects(sa, d)
+    subs = subsets_upto(len(objs), max_sel)
+    c = S.choice('sel%d' % step, len(subs))
+    sel = set(subs[c])
+    for n, (k, i, o) in enumerate(objs):
+        o.benefit = 1.0 if n in sel else 0.0
+        o.error = o.benefit
+    sa.benefit_max = sa.refinement.get_max_benefit()
+    sa.refine()
+    return [(objs[n][0], objs[n][1]) for n in sorted(sel)]
+
+
+def grid_goals(S, sa, d, f, tag, boundary, check_interp=True, out_len=1):
+    """C03: validity of the nested combination in the current refinement state."""
+    stripes = {}
+    ok_sorted = ok_ends = ok_dep = True
+    grids = []
+    for cg in sa.scheme:
+        lv = tuple(int(x) for x in cg.levelvector)
+        coords, levels, children = sa.get_point_coord_for_each_dim(cg.levelvector)
+        for k in range(d):
+            c = [float(x) for x in coords[k]]
+            ok_sorted = ok_sorted and all(c[i] < c[i + 1] for i in range(len(c) - 1))
+            ok_ends = ok_ends and c[0] == float(sa.a[k]) and c[-1] == float(sa.b[k])
+            key = (k, lv[k])
+            if key in stripes:
+                ok_dep = ok_dep and stripes[key] == c
+            else:
+                stripes[key] = c
+            ok_dep = ok_dep and len(levels[k]) == len(c)
+        grids.append((cg, [[float(x) for x in coords[k]] for k in range(d)]))
+    S.prove(ok_sorted, tag + ':1d-point-sets-strictly-sorted')
+    S.prove(ok_ends, tag + ':1d-point-sets-contain-domain-end-points')
+    S.prove(ok_dep, tag + ':1d-point-set-depends-only-on-(dimension,level)')
+    ok_mono = True
+    for (k, l), c in stripes.items():
+        if (k, l + 1) in stripes:
+            ok_mono = ok_mono and set(c) <= set(stripes[(k, l + 1)])
+    S.prove(ok_mono, tag + ':1d-point-sets-grow-monotonically-with-level')
+    count = {}
+    for cg, coords in grids:
+        use = coords if boundary else [c[1:-1] for c in coords]
+        pts_real = set(tuple(float(x) for x in p) for p in sa.get_points_component_grid(cg.levelvector))
+        mine = set(itertools.product(*use))
+        S.prove(pts_real == mine, tag + ':component-grid-is-the-tensor-product-of-its-1d-sets')
+        for p in mine:
+            count[p] = count.get(p, 0) + cg.coefficient
+    S.prove(all(v == 1 for v in count.values()), tag + ':coefficients-sum-to-one-at-every-sparse-grid-point')
+    S.prove(sum(cg.coefficient for cg in sa.scheme) == 1, tag + ':coefficients-sum-to-one')
+    if check_interp:
+        pts = sorted(count)
+        vals = sa(pts)
+        ok = True
+        for p, v in zip(pts, vals):
+            want = f.F(list(p))
+            ok = sym_and(ok, *[v[j] == want[j] for j in range(out_len)])
+        S.prove(ok, tag + ':combined-interpolant-reproduces-F-at-every-sparse-grid-point')
+    return count
